@@ -446,110 +446,111 @@ func hasStructure(d interface{}) bool {
 	return false
 }
 
-// MatchLoose is Match with the sheens reading of a repeated variable: the
-// second occurrence is accepted when the two values are deep-equal OR when
-// either value, taken as a pattern, partially matches the other.  It is the
-// relaxed model behind known finding c05.repeated-var-structured.
+// MatchLoose is the relaxed model behind the known finding
+// "repeated-var-structured": sheens compares the occurrences of a repeated
+// variable by partial matching in an order that depends on Go map iteration,
+// which is not an equivalence.  MatchLoose therefore over-approximates every
+// such order: the occurrences of a repeated (or pre-bound) variable are
+// matched independently, and the variable may be reported with the value of
+// any of its occurrences.
 func MatchLoose(p, d interface{}, th B) []B {
-	return matchL(Norm(p), Norm(d), th)
-}
-
-func looseEq(a, b interface{}) bool {
-	if reflect.DeepEqual(a, b) {
-		return true
+	pn := Norm(p)
+	counts := VarsOf(pn, nil)
+	rep := map[string]bool{}
+	for v, n := range counts {
+		if v == "?" {
+			continue
+		}
+		if _, pre := th[v]; n >= 2 || pre {
+			rep[v] = true
+		}
 	}
-	return len(match(a, b, B{})) > 0 || len(match(b, a, B{})) > 0
-}
-
-func bindVarL(v string, d interface{}, th B) []B {
-	if v == "?" {
-		return []B{th}
+	if len(rep) == 0 {
+		return match(pn, Norm(d), th)
 	}
-	if old, ok := th[v]; ok {
-		if looseEq(Norm(old), Norm(d)) {
-			// either value may be the one reported
-			n := cp(th)
-			n[v] = d
-			return []B{th, n}
-		}
-		return nil
+	occ := map[string]int{}
+	var ren func(x interface{}) interface{}
+	name := func(v string) string {
+		occ[v]++
+		return fmt.Sprintf("%s\x00%d", v, occ[v])
 	}
-	n := cp(th)
-	n[v] = d
-	return []B{n}
-}
-
-func matchL(p, d interface{}, th B) []B {
-	switch pv := p.(type) {
-	case string:
-		if IsVar(pv) {
-			return bindVarL(pv, d, th)
-		}
-		return match(p, d, th)
-	case map[string]interface{}:
-		dm, ok := d.(map[string]interface{})
-		if !ok {
-			return nil
-		}
-		if len(pv) == 0 {
-			return []B{th}
-		}
-		keys := make([]string, 0, len(pv))
-		for k := range pv {
-			keys = append(keys, k)
-		}
-		sort.Strings(keys)
-		if len(keys) == 1 && IsVar(keys[0]) {
-			var acc []B
-			for fk := range dm {
-				for _, t1 := range bindVarL(keys[0], fk, th) {
-					acc = append(acc, matchL(pv[keys[0]], dm[fk], t1)...)
+	ren = func(x interface{}) interface{} {
+		switch v := x.(type) {
+		case string:
+			if rep[v] {
+				return name(v)
+			}
+			return v
+		case map[string]interface{}:
+			m := make(map[string]interface{}, len(v))
+			ks := make([]string, 0, len(v))
+			for k := range v {
+				ks = append(ks, k)
+			}
+			sort.Strings(ks)
+			for _, k := range ks {
+				kk := k
+				if rep[k] {
+					kk = name(k)
 				}
+				m[kk] = ren(v[k])
 			}
-			return acc
+			return m
+		case []interface{}:
+			a := make([]interface{}, len(v))
+			for i, e := range v {
+				a[i] = ren(e)
+			}
+			return a
 		}
-		// all key orders matter for which value a repeated variable keeps:
-		// bindVarL returns both candidates, so one order suffices.
-		res := []B{th}
-		for _, k := range keys {
-			dv, have := dm[k]
-			if !have {
-				return nil
-			}
-			var next []B
-			for _, r := range res {
-				next = append(next, matchL(pv[k], dv, r)...)
-			}
-			res = next
-			if len(res) == 0 {
-				return nil
-			}
-		}
-		return res
-	case []interface{}:
-		da, ok := d.([]interface{})
-		if !ok {
-			return nil
-		}
-		var rec func(i int, used uint64, th B) []B
-		rec = func(i int, used uint64, th B) []B {
-			if i == len(pv) {
-				return []B{th}
-			}
-			var acc []B
-			for j, e := range da {
-				if used&(1<<uint(j)) != 0 {
-					continue
-				}
-				for _, t1 := range matchL(pv[i], e, th) {
-					acc = append(acc, rec(i+1, used|(1<<uint(j)), t1)...)
-				}
-			}
-			return acc
-		}
-		return rec(0, 0, th)
+		return x
 	}
-	return match(p, d, th)
+	p2 := ren(pn)
+	th2 := B{}
+	for k, v := range th {
+		if !rep[k] {
+			th2[k] = v
+		}
+	}
+	var out []B
+	for _, sol := range match(p2, Norm(d), th2) {
+		base := B{}
+		cands := map[string][]interface{}{}
+		for k, v := range sol {
+			if i := strings.Index(k, "\x00"); i >= 0 {
+				cands[k[:i]] = append(cands[k[:i]], v)
+			} else {
+				base[k] = v
+			}
+		}
+		for v := range rep {
+			if pre, ok := th[v]; ok {
+				cands[v] = append(cands[v], pre)
+			}
+		}
+		vars := make([]string, 0, len(cands))
+		for v := range cands {
+			vars = append(vars, v)
+		}
+		sort.Strings(vars)
+		var expand func(i int, cur B)
+		expand = func(i int, cur B) {
+			if len(out) > 4096 {
+				return
+			}
+			if i == len(vars) {
+				out = append(out, cp(cur))
+				return
+			}
+			for _, c := range cands[vars[i]] {
+				cur[vars[i]] = c
+				expand(i+1, cur)
+			}
+			delete(cur, vars[i])
+		}
+		expand(0, cp(base))
+	}
+	return out
 }
 
 // Subset reports a ⊆ b for sorted string sets.
